@@ -36,3 +36,82 @@ func VerifProbeSwamp(h *verifrt.H) {
 	h.Assert(s.CountTreasures() == 1, "count")
 	h.Cover("end")
 }
+
+var vfEmptyBody = []byte{0xC7, 0x00, 0x80} // msgpack magic prefix + empty map
+
+func vfPut(s Swamp, key string, exp *time.Time) {
+	t := s.CreateTreasure(key)
+	g := t.StartTreasureGuard(true)
+	t.SetContentByteArray(g, vfEmptyBody)
+	if exp != nil {
+		t.SetExpirationTime(g, *exp)
+	}
+	t.Save(g)
+	t.ReleaseTreasureGuard(g)
+}
+
+// VerifC30Expiry: one record whose expiry e (UnixNano; symbolic: 0, negative, past, future) is
+// set through Set / patch-meta set / patch-meta slide / patch-meta clear, with the expiry index
+// built before or after the write (hot vs cold path). Every expiry-aware path must agree with
+// "e != 0 && e < now": stored value, IsExpired, membership in the expiry-ordered index,
+// expired-shift and expired-patch claims.
+func VerifC30Expiry(h *verifrt.H) {
+	h.BackgroundLowPriority(true)
+	s := vfMem(h, nil)
+	e := h.Int64("expiry")
+	et := time.Unix(0, e).UTC()
+	warm := h.Choose("indexBuiltBeforeWrite", 2) == 1
+	if warm {
+		s.GetTreasuresByBeacon(BeaconTypeExpirationTime, IndexOrderAsc, 0, 10, nil, nil)
+	}
+	want := e
+	switch h.Choose("setPath", 4) {
+	case 0:
+		vfPut(s, "k", &et)
+	case 1:
+		vfPut(s, "k", nil)
+		r, err := s.PatchFields("k", nil, nil, PatchFieldsOptions{Meta: &PatchFieldsMeta{SetExpiredAt: et}})
+		h.Assert(err == nil && r.Status == PatchStatusPatched, "patch-meta-set-ok")
+	case 2:
+		e0 := time.Unix(0, h.Int64("oldExpiry")).UTC()
+		vfPut(s, "k", &e0)
+		r, err := s.PatchFields("k", nil, nil, PatchFieldsOptions{Meta: &PatchFieldsMeta{SetExpiredAt: et}})
+		h.Assert(err == nil && r.Status == PatchStatusPatched, "patch-meta-slide-ok")
+	case 3:
+		vfPut(s, "k", &et)
+		r, err := s.PatchFields("k", nil, nil, PatchFieldsOptions{Meta: &PatchFieldsMeta{ClearExpiredAt: true}})
+		h.Assert(err == nil && r.Status == PatchStatusPatched, "patch-meta-clear-ok")
+		want = 0
+	}
+	n0 := time.Now().UTC().UnixNano()
+	tr, err := s.GetTreasure("k")
+	h.Assert(err == nil, "record-present")
+	if err != nil {
+		return
+	}
+	h.Assert(tr.GetExpirationTime() == want, "expiry-stored-as-given")
+	expired := tr.IsExpired()
+	list, lerr := s.GetTreasuresByBeacon(BeaconTypeExpirationTime, IndexOrderAsc, 0, 10, nil, nil)
+	h.Assert(lerr == nil, "expiry-index-read-ok")
+	h.Assert((len(list) == 1) == (want != 0), "expiry-index-holds-exactly-records-with-expiry")
+	claimed := false
+	if h.Choose("claimPath", 2) == 0 {
+		got, cerr := s.CloneAndDeleteExpiredTreasures(1)
+		h.Assert(cerr == nil, "shift-expired-ok")
+		claimed = len(got) == 1
+	} else {
+		got, _, cerr := s.PatchExpired(1, nil, nil, &PatchFieldsMeta{SetUpdatedAt: true}, nil, nil, 0)
+		h.Assert(cerr == nil, "patch-expired-ok")
+		claimed = len(got) == 1
+	}
+	n1 := time.Now().UTC().UnixNano()
+	if want != 0 && want < n0 {
+		h.Assert(expired, "past-expiry-is-expired")
+		h.Assert(claimed, "past-expiry-is-claimable")
+	}
+	if want == 0 || want >= n1 {
+		h.Assert(!expired, "no-or-future-expiry-is-not-expired")
+		h.Assert(!claimed, "no-or-future-expiry-is-not-claimable")
+	}
+	h.Cover("end")
+}
